@@ -158,6 +158,9 @@ class SparsePCA(BaseModelSingleSet):
         # Compute matrix rank
         rank = get_matrix_rank(X)
 
+        if not isinstance(self.n_modes, (int, np.integer)) or self.n_modes < 1:
+            raise ValueError("n_modes must be an integer greater than 0")
+
         # Decide whether to use exact or randomized algorithm
         is_small_data = max(X.shape) < 500
         solver = self._params["solver"]
